@@ -11,8 +11,15 @@ import (
 
 	structform "github.com/elastic/go-structform"
 
+	"verif/harness/gen"
 	"verif/harness/val"
 )
+
+func init() {
+	for t, ts := range IfaceValues {
+		gen.DefaultIfaceTypesFor[t] = ts
+	}
+}
 
 // Modeler is implemented by zoo types with a custom Fold method.
 type Modeler interface{ ModelV() val.V }
@@ -237,6 +244,35 @@ var FoldererValues = []reflect.Type{
 	reflect.TypeOf(FoldVal{}), reflect.TypeOf(&FoldPtr{}), reflect.TypeOf(FoldArr{}), reflect.TypeOf(FoldTags{}), reflect.TypeOf(FoldNum(0)), reflect.TypeOf(&FoldVal{}),
 }
 
+// Str and StrBox implement Stringer (a non-empty interface that has nothing
+// to do with folding) with a value and a pointer receiver.
+type Str string
+
+func (s Str) String() string { return string(s) }
+
+type StrBox struct{ S string }
+
+func (b *StrBox) String() string { return b.S }
+
+// maps whose element type is a non-empty interface, plain and inline
+type WithIfaceMaps struct {
+	A  int
+	M  map[string]Stringer
+	L  []Stringer
+	S  Stringer
+	MF map[string]Folderer `struct:",inline"`
+	Z  int
+}
+
+type InlineStringerMap struct {
+	A int
+	M map[string]Stringer `struct:",inline"`
+	Z int
+}
+
+// StringerValues are the dynamic types Stringer positions draw from.
+var StringerValues = []reflect.Type{reflect.TypeOf(Str("")), reflect.TypeOf(&StrBox{})}
+
 // nested inline interfaces
 type InlineOuter struct {
 	A int
@@ -345,6 +381,14 @@ var FoldOnly = []reflect.Type{
 	reflect.TypeOf([]interface{}{}), reflect.TypeOf(map[string]interface{}{}),
 	reflect.TypeOf(WithZeroers2{}), reflect.TypeOf(ZeroStr("")), reflect.TypeOf(ZeroSet(nil)), reflect.TypeOf(WithFolderIface{}),
 	reflect.TypeOf(InlineOuter{}), reflect.TypeOf(InlineInner{}),
+	reflect.TypeOf(WithIfaceMaps{}), reflect.TypeOf(InlineStringerMap{}), reflect.TypeOf(map[string]Stringer{}), reflect.TypeOf([]Folderer{}),
+}
+
+// IfaceValues maps the zoo's non-empty interface types to the dynamic types
+// their positions draw from (gen.GoValueOpts.IfaceTypesFor).
+var IfaceValues = map[reflect.Type][]reflect.Type{
+	reflect.TypeOf((*Folderer)(nil)).Elem(): FoldererValues,
+	reflect.TypeOf((*Stringer)(nil)).Elem(): StringerValues,
 }
 
 // FolderValues are dynamic types with custom Fold methods for interface{}
